@@ -214,6 +214,11 @@ def _compositions(n, k):
             yield (first,) + rest
 
 
+def tkey(t):
+    """structural key of a term (primitives of the same name but different types differ)"""
+    return json.dumps(t)
+
+
 def size_of(t):
     return 1 + sum(size_of(a) for a in t[1])
 
@@ -435,6 +440,25 @@ def family_syntax(rng, family):
     raise ValueError(family)
 
 
+POLY_POOL = [("head", "'a list -> 'a"), ("cons", "'a -> 'a list -> 'a list"), ("nil", "'a list"), ("len", "'a list -> int"),
+             ("+", "int -> int -> int"), ("1", "int"), ("non_reachable", "non_reachable"), ("non_productive", "int -> string"),
+             ("t", "bool"), ("ite", "bool -> 'a -> 'a -> 'a"), ("single", "'a -> 'a list"), ("eq", "'a -> 'a -> bool")]
+
+
+def poly_prims(strs):
+    """primitives after the real instantiate_polymorphic_types (order depends on PYTHONHASHSEED)"""
+    from synth.syntax import DSL, auto_type
+    dsl = DSL(auto_type(dict(strs)))
+    dsl.instantiate_polymorphic_types(4)
+    out = []
+    for p in dsl.list_primitives:
+        try:
+            out.append((p.primitive, W.repo_tt(p.type)))
+        except ValueError:
+            return None, None
+    return dsl, out
+
+
 def _spec_of(rng, tier, prims, forb, req, kinds):
     kind = rng.choice(kinds)
     names = [n for n, _ in prims]
@@ -482,11 +506,23 @@ def _fit(case, spec, tier, rng=None):
 
 
 def gen(rng, i, tier):
-    family = rng.choice(["random", "random", "random", "arith", "arith", "siblings", "siblings", "uninhabited", "ho"])
-    prims, forb, req = family_syntax(rng, family)
+    family = rng.choice(["random", "random", "random", "arith", "arith", "siblings", "siblings", "uninhabited", "ho", "poly"])
+    if family == "poly":
+        strs = [["+", "int -> int -> int"], ["1", "int"]] + [list(x) for x in rng.sample(POLY_POOL, rng.choice([2, 3, 4])) if x[0] not in ("+", "1")]
+        _, prims = poly_prims(strs)
+        if prims is None or len(prims) > 40:
+            strs = [["+", "int -> int -> int"], ["1", "int"], ["head", "'a list -> 'a"]]
+            _, prims = poly_prims(strs)
+        forb = {("+", 0): ["+"]} if rng.random() < 0.3 else {}
+        req = rng.choice([arrow("int", "int"), "int", arrow(("list", "int"), "int"), arrow("int", ("list", "int"))])
+    else:
+        strs = None
+        prims, forb, req = family_syntax(rng, family)
     case = {"family": family, "prims": [[n, t] for n, t in prims],
             "forbidden": [[k[0], k[1], sorted(v)] for k, v in forb.items()], "request": req,
             "n_gram": rng.choice([2, 2, 2, 2, 2, 3, -1, 1, 0]), "nseed": rng.randrange(1 << 30)}
+    if strs is not None:
+        case["poly"] = strs
     mode = rng.choice(["size", "size", "size", "atmost", "atmost", "mul", "mul"])
     case["mode"] = mode
     if mode == "mul":
@@ -736,7 +772,16 @@ def build_case(case):
     prims = [(n, _tt(t)) for n, t in case["prims"]]
     forb = {(a, b): set(v) for a, b, v in case["forbidden"]}
     request = _tt(case["request"])
-    dsl = DSL({n: W.tt_repo(t) for n, t in prims}, {k: set(v) for k, v in forb.items()})
+    if case.get("poly"):
+        # polymorphic syntax: instantiated by the real code under this worker's PYTHONHASHSEED (the
+        # order of the primitives, hence of the rules and of the work list, depends on it)
+        dsl, prims2 = poly_prims(case["poly"])
+        names = {n for n, _ in prims}
+        prims = [(n, _tt(t)) for n, t in prims2 if n in names]
+        dsl.list_primitives = [p for p in dsl.list_primitives if p.primitive in names]
+        dsl.forbidden_patterns = {k: set(v) for k, v in forb.items()}
+    else:
+        dsl = DSL({n: W.tt_repo(t) for n, t in prims}, {k: set(v) for k, v in forb.items()})
     return prims, forb, request, dsl, W.tt_repo(request)
 
 
@@ -901,7 +946,7 @@ def check_single(case, M, rng):
             raise RuntimeError("table accepted by subOK but its language differs from the rule-creation language (contradicts C13_certified)")
         if (first_order or var["actual"] or kind == "atmost") and b[2] != b[4]:
             raise RuntimeError(f"language of the rule-creation step differs from the specification on {term_str(t)} (contradicts C13_size/C13_atmost)")
-    mset = {term_str(t) for t in members}
+    mset = {tkey(t) for t in members}
     if len(mset) != len(members):
         raise RuntimeError("oracle enumerated a term twice")
     # ---- 1. type request
@@ -913,7 +958,7 @@ def check_single(case, M, rng):
         got = tr_ in g
         if outside_model is None and (b[0] == "1") != got:
             fail("corr", "membership differs from the model's containsRec on the same table", f"{tr_}: impl={got} model={b[0]}")
-        want = term_str(t) in mset
+        want = tkey(t) in mset
         if want and not got:
             fail("oracle", "a member of the language is not in the grammar", f"{tr_} (size {size_of(t)})")
         if got and not want:
@@ -965,7 +1010,7 @@ def check_single(case, M, rng):
     else:
         fail("corr", "model raises KeyError where the implementation returns", "")
     napp = sum(1 for t in members if t[1])
-    nrej = sum(1 for t in neigh if term_str(t) not in mset)
+    nrej = sum(1 for t in neigh if tkey(t) not in mset)
     nontrivial = len(members) >= 3 and napp >= 1 and nrej >= 1
     if hyp["sub"] is False:
         tags.append("F2-region(model table not stack closed)")
@@ -981,7 +1026,7 @@ def check_single(case, M, rng):
     tags.append("lang<10" if n < 10 else "lang<100" if n < 100 else "lang<1000" if n < 1000 else "lang>=1000")
     sample = {"prims": {n: G.ty_str(t) for n, t in prims}, "forbidden": {f"{a}#{b}": sorted(v) for (a, b), v in forb.items()},
               "request": G.ty_str(request), "n_gram": ng, "spec": spec, "language_size": n,
-              "examples": sorted(mset)[:4], "programs()": nprog}
+              "examples": sorted(term_str(t) for t in members)[:4], "programs()": nprog}
     return _result(case, key, tags, failures, nontrivial, sample)
 
 
@@ -1003,8 +1048,10 @@ def check_mul(case, M, rng):
         failures.append(f)
     dsl2 = dsl
     if case.get("right_drop"):
-        dsl2 = DSL({n: W.tt_repo(t) for n, t in prims if n != case["right_drop"]},
-                   {k: set(v) for k, v in forb.items() if k[0] != case["right_drop"]})
+        import copy
+        dsl2 = copy.copy(dsl)
+        dsl2.list_primitives = [p for p in dsl.list_primitives if p.primitive != case["right_drop"]]
+        dsl2.forbidden_patterns = {k: set(v) for k, v in forb.items() if k[0] != case["right_drop"]}
         tags.append("sub-dsl")
     for sp, drop in ((case["left"], None), (case["right"], case.get("right_drop"))):
         if sp["kind"] == "atmost":
@@ -1032,7 +1079,7 @@ def check_mul(case, M, rng):
     except TooLarge:
         return _result(case, key, tags + ["too-large"], [])
     common = [t for t in lang1 if l2.run(t, g2.start) is not None]
-    cset = {term_str(t) for t in common}
+    cset = {tkey(t) for t in common}
     try:
         g = limited(IMPL_LIMIT, lambda: g1 * g2)
     except (ImplTimeout, RecursionError):
@@ -1048,7 +1095,7 @@ def check_mul(case, M, rng):
     prim_objs = {(p.primitive, W.repo_tt(p.type)): p for p in dsl.list_primitives}
     args, _ = args_ret(request)
     heads = [("P", n, t) for n, t in prims] + [("V", i, a) for i, a in enumerate(args)]
-    only1 = [t for t in lang1 if term_str(t) not in cset]
+    only1 = [t for t in lang1 if tkey(t) not in cset]
     try:
         lang2 = [t for t, _ in l2.seqs(g2.start)] if len(lang1) < 3000 else []
     except (Infinite, TooLarge):
@@ -1089,10 +1136,11 @@ def check_mul(case, M, rng):
             fail("oracle", "product membership is not membership in both factors", f"{tr_}: product={got}, left={in1}, right={in2}")
     # language of the product table by expansion
     try:
-        lp = sorted(term_str(t) for t, _ in TableLang(g.rules, MAX_LANG["thorough"] * 4).seqs(g.start))
+        lpt = [t for t, _ in TableLang(g.rules, MAX_LANG["thorough"] * 4).seqs(g.start)]
+        lp = sorted(tkey(t) for t in lpt)
         if lp != sorted(cset):
             fail("oracle", "language of the product table is not the intersection of the factors' languages",
-                 f"extra={sorted(set(lp) - cset)[:3]} missing={sorted(cset - set(lp))[:3]}")
+                 f"extra={[term_str(t) for t in lpt if tkey(t) not in cset][:3]} missing={[term_str(t) for t in common if tkey(t) not in set(lp)][:3]} ({len(lp)} vs {len(cset)})")
     except (Infinite, TooLarge):
         fail("oracle", "language of the product table is not the intersection of the factors' languages", "product table cyclic or larger than the left factor")
     stuck, empty, complete = stuck_configs(g)
@@ -1138,7 +1186,7 @@ def check_mul(case, M, rng):
     if hyp_closed is False:
         tags.append("F5-region(model product not clean)")
     sample = {"prims": {n: G.ty_str(t) for n, t in prims}, "request": G.ty_str(request), "left": case["left"], "right": case["right"],
-              "right_drop": case.get("right_drop"), "common": len(common), "left_only": len(only1), "examples": sorted(cset)[:4]}
+              "right_drop": case.get("right_drop"), "common": len(common), "left_only": len(only1), "examples": sorted(term_str(t) for t in common)[:4]}
     return _result(case, key, tags, failures, nontrivial, sample)
 
 
